@@ -11,7 +11,7 @@ import tempfile
 import shutil
 from pathlib import Path
 
-from harness.common import Driver, NonFinite, np, q, unq
+from harness.common import quiet_loop, Driver, NonFinite, np, q, unq
 from harness import capture, corpus, corr, known, oracles, paired, props, scen
 
 import pandas as pd  # noqa: E402
@@ -323,7 +323,7 @@ def malformed_cases():
             base = corpus.rec_event(tb, cfg)
             base.update(over)
             sim = scen.build_sim(corpus.mk_sc(tb, cfg, [base], T=10))
-            sim.loop()
+            quiet_loop(sim)
         return f
     cases.append(("recovery tau zero", ev(recovery_tau=0)))
     cases.append(("recovery tau negative", ev(recovery_tau=-3)))
@@ -348,7 +348,7 @@ def malformed_cases():
             base = corpus.reb_event(tb, cfg)
             base.update(over)
             sim = scen.build_sim(corpus.mk_sc(tb, cfg, [base], T=10))
-            sim.loop()
+            quiet_loop(sim)
         return f
     cases.append(("rebuild tau zero", reb(rebuild_tau=0)))
     cases.append(("rebuild tau non-integer", reb(rebuild_tau=1.5)))
@@ -361,7 +361,7 @@ def malformed_cases():
             base = corpus.arb_event()
             base.update(over)
             sim = scen.build_sim(corpus.mk_sc(tb, cfg, [base], T=10))
-            sim.loop()
+            quiet_loop(sim)
         return f
     cases.append(("arbitrary loss above 100 %", arb(impact={"rA|agri": 1.2})))
     cases.append(("arbitrary loss negative", arb(impact={"rA|agri": -0.2})))
@@ -823,7 +823,7 @@ def c16_loop_and_json(res, seed, tier):
             sc2["sim"].update({"register_stocks": True, "save_records": list(REC_NAMES)})
             try:
                 simL = scen.build_sim(sc2, outdir=outdir)
-                simL.loop()
+                quiet_loop(simL)
             except Exception:
                 continue
             sc3 = copy.deepcopy(sc)
@@ -950,7 +950,7 @@ def explore_c17(tier, seed):
             junk = [scen.build_sim(copy.deepcopy(sc_)) for sc_ in scs[1:]]   # other simulations created in between
             for j_ in junk:
                 try:
-                    j_.loop()
+                    quiet_loop(j_)
                 except Exception:
                     pass
             del junk
@@ -1054,7 +1054,7 @@ def explore_c17(tier, seed):
         for ev in ev_objs:
             sim.add_event(ev)
         try:
-            sim.loop()
+            quiet_loop(sim)
         except Exception:
             pass
         for ev, sn in zip(ev_objs, ev_snaps):
